@@ -11,6 +11,9 @@ type Cond struct {
 	K   int64  `json:"k,omitempty"`
 	L   *Cond  `json:"l,omitempty"`
 	R   *Cond  `json:"r,omitempty"`
+	// PV (op prop): the value the document declares for the process-level olive
+	// property Var; the condition reads getProp(Var) == K
+	PV int64 `json:"pv,omitempty"`
 }
 
 func True() *Cond  { return &Cond{Op: "true"} }
@@ -35,6 +38,8 @@ func (c *Cond) Eval(vars map[string]any) (val bool, ok bool) {
 	switch c.Op {
 	case "raw":
 		return false, false
+	case "prop":
+		return c.PV == c.K, true
 	case "dobj":
 		// data objects live beside the variables: the model keeps their values
 		// in the variable map under DataObjKey(name)
@@ -89,7 +94,7 @@ func (c *Cond) UsesDataObject() bool {
 	if c == nil {
 		return false
 	}
-	return c.Op == "dobj" || c.L.UsesDataObject() || c.R.UsesDataObject()
+	return c.Op == "dobj" || c.Op == "prop" || c.L.UsesDataObject() || c.R.UsesDataObject()
 }
 
 // Vars lists the variables the condition reads.
@@ -119,6 +124,8 @@ func (c *Cond) Expr() string {
 		return c.Var
 	case "dobj":
 		return fmt.Sprintf(`getDataObject("%s") == true`, c.Var)
+	case "prop":
+		return fmt.Sprintf(`getProp("%s") == %d`, c.Var, c.K)
 	case "not":
 		return "!(" + c.L.Expr() + ")"
 	case "and":
